@@ -117,7 +117,15 @@ func runReplays(cases []*ReplayCase, verbose bool) error {
 		ovj, _ := json.Marshal(map[string]interface{}{"Replace": repl})
 		ovPath := filepath.Join(tmp, "overlay_"+strings.ReplaceAll(p, "/", "_")+".json")
 		os.WriteFile(ovPath, ovj, 0644)
-		cmd := exec.Command("go", "test", "-vet=off", "-count=1", "-timeout", "600s", "-overlay", ovPath, "-run", "^TestVerifReplay$", "-v", "./"+p)
+		args := []string{"test", "-vet=off", "-count=1", "-timeout", "600s", "-overlay", ovPath, "-run", "^TestVerifReplay$", "-v"}
+		for _, c := range cs {
+			if c.Kind == "race" {
+				args = append(args, "-race")
+				break
+			}
+		}
+		args = append(args, "./"+p)
+		cmd := exec.Command("go", args...)
 		cmd.Dir = repoDir
 		cmd.Env = append(os.Environ(), "GOFLAGS=-mod=mod", "GOPROXY=off", "GOSUMDB=off", "GOTOOLCHAIN=local")
 		t0 := time.Now()
@@ -141,6 +149,9 @@ func runReplays(cases []*ReplayCase, verbose bool) error {
 			if !ok {
 				r = "norun: " + lastLines(txt, 6)
 			}
+			if c.Kind == "race" && strings.Contains(txt, "WARNING: DATA RACE") {
+				r = "DATA RACE reported by the Go race detector; " + r
+			}
 			c.Result = r
 		}
 	}
@@ -162,6 +173,8 @@ func replayConfirms(c *ReplayCase) bool {
 		return c.Result == "passed"
 	case "assert":
 		return strings.HasPrefix(c.Result, "panic: VERIF-ASSERT-FAILED")
+	case "race":
+		return strings.HasPrefix(c.Result, "DATA RACE")
 	case "panic", "deadlock":
 		return strings.HasPrefix(c.Result, "panic:") && !strings.Contains(c.Result, "VERIF-ASSUME-FAILED") && !strings.Contains(c.Result, "VERIF-REPLAY-EXHAUSTED") && !strings.Contains(c.Result, "VERIF-ASSERT-FAILED")
 	}
